@@ -672,6 +672,9 @@ func (s *Service) ProcessRequest(ctx *core.Context, m map[string]interface{}, ou
 		}
 
 		code, _, err := GetStringParam(m, "code", true)
+		if err != nil {
+			return nil, err
+		}
 
 		encoding, provided, err := GetStringParam(m, "encoding", false)
 		if provided {
@@ -889,6 +892,9 @@ func (s *Service) ProcessRequest(ctx *core.Context, m map[string]interface{}, ou
 		}
 
 		id, _, err := GetStringParam(m, "id", false)
+		if err != nil {
+			return nil, err
+		}
 
 		// ToDo: Not this.
 		js, err := json.Marshal(fact)
@@ -1028,6 +1034,9 @@ func (s *Service) ProcessRequest(ctx *core.Context, m map[string]interface{}, ou
 			// Don't take anything if there is nothing to add.
 			return nil, err
 		}
+		if _, _, err := GetStringParam(m, "id", false); err != nil {
+			return nil, err
+		}
 		m["uri"] = "/api/loc/facts/search"
 		m["take"] = true
 		core.Log(core.INFO, ctx, "service.ProcessRequest", "app_tag", "/api/loc/facts/replace", "phase", "take")
@@ -1119,6 +1128,9 @@ func (s *Service) ProcessRequest(ctx *core.Context, m map[string]interface{}, ou
 		}
 
 		id, _, err := GetStringParam(m, "id", false)
+		if err != nil {
+			return nil, err
+		}
 
 		// ToDo: Not this.
 		js, err := json.Marshal(rule)
